@@ -58,6 +58,7 @@ func checkC01(p *Prog, r *Report) {
 	checkTeardownWindow(r, rTear, a, m)
 	checkDoShutdown(p, r, r.Rule("shutdown-flag", "the shutdown flag is set (under the lock) by the very goroutine which then waits for attached streams, before it waits"), a)
 	checkRefusedNoIO(p, r, rIO, a)
+	checkDetachedSilent(p, r, r.Rule("detached-stream-silent", "what is shown to the operator is handed over by the proxies themselves, which end before their stream is detached: no goroutine a proxy starts sends on the operator channel (it could do so after the detachment, beside a new shell's output)"), a)
 	checkHandlerWiring(p, r, rWire)
 }
 
@@ -863,4 +864,107 @@ func onlyForwards(v ssa.Value, streamFns map[*ssa.Function]bool, depth int) bool
 		}
 	}
 	return true
+}
+
+// checkDetachedSilent: goroutines started (directly or through further
+// goroutines) by what the entry points hand to the admission function as the
+// proxy must not send on the operator channel.
+func checkDetachedSilent(p *Prog, r *Report, ru *Rule, a *connectAnchors) {
+	/* The proxies: static callees of the proxy closures. */
+	var roots []*ssa.Function
+	for _, ci := range a.Callers {
+		if idx := paramIndex(a.Fn, a.Proxy); idx >= 0 && idx < len(ci.Common().Args) {
+			if cf, _ := closureOf(p.resolveUp(ci.Common().Args[idx])); nil != cf {
+				roots = append(roots, cf)
+			}
+		}
+	}
+	/* Functions run synchronously by f (static calls, depth-bounded), and
+	the goroutines they start. */
+	var spawned []*ssa.Function
+	seen := map[*ssa.Function]bool{}
+	var walk func(f *ssa.Function, inGo bool, depth int)
+	walk = func(f *ssa.Function, inGo bool, depth int) {
+		if nil == f || nil == f.Blocks || depth > 6 || !inModule(f) {
+			return
+		}
+		key := f
+		if seen[key] && !inGo {
+			return
+		}
+		seen[key] = true
+		if inGo {
+			spawned = append(spawned, f)
+		}
+		eachInstr(f, func(i ssa.Instruction) {
+			cc := callCommon(i)
+			if nil == cc {
+				return
+			}
+			g := cc.StaticCallee()
+			if nil == g {
+				g, _ = closureOf(resolveLocalFunc(cc.Value))
+			}
+			if nil == g || g == f {
+				return
+			}
+			_, isGo := i.(*ssa.Go)
+			/* Function literals handed to a goroutine starter of the module
+			(eg.Go(func…)) run in goroutines as well. */
+			walk(g, inGo || isGo, depth+1)
+			for _, arg := range cc.Args {
+				if lf, _ := closureOf(arg); nil != lf && lf.Parent() == f && strings.HasSuffix(calleeName(cc), ".Go") {
+					walk(lf, true, depth+1)
+				}
+			}
+		})
+	}
+	for _, f := range roots {
+		walk(f, false, 0)
+	}
+	n := 0
+	done := map[*ssa.Function]bool{}
+	for _, g := range spawned {
+		if done[g] {
+			continue
+		}
+		done[g] = true
+		n++
+		c := fnName(g) + ":operator-channel"
+		var bad ssa.Instruction
+		eachInstr(g, func(i ssa.Instruction) {
+			if sd, ok := i.(*ssa.Send); ok {
+				if fv, _ := fieldBehind(sd.Chan); nil != fv && fv == a.FOch {
+					bad = i
+				}
+			}
+			if sel, ok := i.(*ssa.Select); ok {
+				for _, st := range sel.States {
+					if types.SendOnly != st.Dir {
+						continue
+					}
+					if fv, _ := fieldBehind(st.Chan); nil != fv && fv == a.FOch {
+						bad = i
+					}
+				}
+			}
+			/* Or through the broker's own notice functions. */
+			if cc := callCommon(i); nil != cc && nil != cc.StaticCallee() && inModule(cc.StaticCallee()) && "Broker" == recvTypeName(cc.StaticCallee()) {
+				switch cc.StaticCallee().Name() {
+				case "Logf", "Errorf":
+					bad = i
+				}
+			}
+		})
+		if nil != bad {
+			ru.Bad(c, posOf(bad), "a goroutine started by a proxy sends on the operator channel itself: it is not ended by the stream's detachment, so output of a shell which is no longer attached can be displayed, also beside the output of the next shell")
+		} else {
+			ru.OK(c, g.Pos(), "does not send on the operator channel")
+		}
+	}
+	if 0 == len(roots) {
+		ru.Unproven("proxies", token.NoPos, "the proxy closures handed to the admission function were not found")
+	} else if 0 == n {
+		ru.OK("proxies", roots[0].Pos(), "the proxies start no goroutines")
+	}
 }
